@@ -282,11 +282,43 @@ pub fn main(args: &crate::Args) {
         for (i, (c, r)) in calls.iter().zip(&rets).enumerate() {
             sem.apply(i, c, r);
         }
-        if sem.first_violation().is_some() || sem.zero_div {
+        if sem.zero_div {
             *hist.entry("skipped.unsatisfied-base".into()).or_default() += 1;
             continue;
         }
+        let unsat_base = sem.first_violation().is_some();
         let Ok(Ok(circuit)) = catch_unwind(AssertUnwindSafe(|| builder.build())) else { continue };
+        let lanes = 1 + (h % 3) as usize;
+        let k = 2 + ((h >> 8) % 4) as usize;
+        let min_h = 1usize << ((h >> 16) % 3);
+        let packing = packing_of(lanes, k, min_h);
+        let replay = json!({"field":"bb","program": calls.iter().map(|c| c.line()).collect::<Vec<_>>(), "pubs": pu, "privs": pr,
+            "id": id, "lanes": lanes, "horner_k": k, "min_height": min_h});
+        // ---- C04: the table's reading of HornerAcc steps (accumulator = previous row's output, 0
+        // at a chain start) replayed as a forgery: an assignment consistent with every emitted op
+        // *except* that Horner steps ignore their `acc` operand. If it violates an op relation and
+        // is nevertheless proven and verified, the proof attests a false statement.
+        if forge > 0 && circuit.ops.iter().any(|o| matches!(o, Op::Alu { kind: AluOpKind::HornerAcc, .. })) {
+            let priv_slots: Vec<(u32, F)> = circuit.private_input_rows.iter().zip(&privs).map(|(s, v)| (s.0, *v)).collect();
+            if let Some(w2) = crate::prog::ops_only_assignment_mode(&circuit, &pubs, &priv_slots, false, true) {
+                if !ops_sat_full(&circuit, &w2, &pubs) {
+                    let ft = traces_from_assignment(&circuit, &w2);
+                    let o = prove_verify(&circuit, &ft, &packing);
+                    evals += 1;
+                    *hist.entry(format!("forged.air-horner.{}", desc_outcome(&o))).or_default() += 1;
+                    if o == Outcome::Accepted {
+                        let mut rp = replay.clone();
+                        rp["forgery"] = json!("Horner steps take the table's accumulator (previous row / zero) instead of their acc operand");
+                        rp["forged_witness"] = json!(w2.iter().map(|x| x.as_canonical_u64()).collect::<Vec<_>>());
+                        violations.push(json!({"property":"C04","kind":"forged-trace-accepted","class":"horner-acc-not-bound","replay":rp}));
+                    }
+                }
+            }
+        }
+        if unsat_base {
+            *hist.entry("skipped.unsatisfied-base".into()).or_default() += 1;
+            continue;
+        }
         let run = catch_unwind(AssertUnwindSafe(|| {
             let mut runner = circuit.runner();
             runner.set_public_inputs(&pubs)?;
@@ -298,13 +330,7 @@ pub fn main(args: &crate::Args) {
             continue;
         };
         distinct.insert(h);
-        let lanes = 1 + (h % 3) as usize;
-        let k = 2 + ((h >> 8) % 4) as usize;
-        let min_h = 1usize << ((h >> 16) % 3);
-        let packing = packing_of(lanes, k, min_h);
         let wvals: Vec<F> = (0..circuit.witness_count).map(|i| *traces.witness_trace.get_value(WitnessId(i)).unwrap()).collect();
-        let replay = json!({"field":"bb","program": calls.iter().map(|c| c.line()).collect::<Vec<_>>(), "pubs": pu, "privs": pr,
-            "id": id, "lanes": lanes, "horner_k": k, "min_height": min_h});
         // ---- C10: the honest trace must be provable and verify
         let o = prove_verify(&circuit, &traces, &packing);
         evals += 1;
